@@ -18,6 +18,7 @@ from __future__ import annotations
 import sys
 import threading
 
+from harness import retry
 from harness import core, tl
 from harness import topology as tp
 from harness import universe as U
@@ -148,6 +149,18 @@ def check_program(spec, col, depths, meta):
                     col.violation("every-level-unmarshalled", case, f"depth {d} [{src_name}]: {e}", bucket=e.split(": ", 1)[-1][:50])
                 elif not deep_same(u, v):
                     col.violation("round-trip", case, f"depth {d} [{src_name}]: {why_different(u, v)}", bucket=diff_bucket(u, v))
+            if d in (1, 3) and not soft:
+                # the same objects after a call that failed on one invalid member and was handled (member put back in place)
+                for direction, obj, fcall in (("marshal", v, lambda o: tl.call(tl.marshal, o, t=T)), ("unmarshal", w, lambda o: tl.call(tl.unmarshal, T, o))):
+                    r = retry.retry_after_failure(obj, fcall, d * 7 + len(direction))
+                    if r is None:
+                        continue
+                    col.ev()
+                    col.label(f"retry:first-call-{'failed' if r[0] else 'passed'}")
+                    if r[2] != r[1]:
+                        col.violation("every-level-marshalled" if direction == "marshal" else "every-level-unmarshalled", dict(case, retry=direction),
+                                      f"depth {d}: {direction} failed on an invalid member, the member was put back in place, the same call then "
+                                      f"{'raised ' + r[2][1] if r[2][0] == 'exc' else 'returned something else'}", bucket=f"retry|{direction}|{r[2][0]}")
             kc, b = tl.call(cdc.encode, v)
             soft = soft or d > 30  # the default JSON encoder (orjson) refuses documents nested deeper than 254 levels
             if kc == "exc" and soft:
@@ -163,15 +176,17 @@ def check_program(spec, col, depths, meta):
                               bucket="codec")
 
 
-def run_topology(t, col, depths, flavours=None, future=False, mods=None):
+def run_topology(t, col, depths, flavours=None, future=False, mods=None, nest=None):
     for root in range(len(t)):
         if not tp.has_cycle(t, root):
             continue
         for emb in tp.EMBEDDINGS:
             if col.out_of_time():
                 return
-            spec = tp.to_spec(t, root, emb, flavours=flavours, future=future, mods=mods)
+            spec = tp.to_spec(t, root, emb, flavours=flavours, future=future, mods=mods, nest=nest)
             col.label(f"embedding:{emb}")
+            if nest and any(nest):
+                col.label("classes-nested-in-a-class")
             check_program(spec, col, depths, {"topology": tp.describe(t), "root_class": root, "embedding": emb})
 
 
@@ -201,6 +216,8 @@ def _run(shard, col):
         for t in tp.enumerate_topologies(1):
             for fl in ("dataclass", "namedtuple", "typeddict", "plain"):
                 run_topology(t, col, depths, flavours=[fl], future=(fl == "plain"))
+            run_topology(t, col, depths, flavours=["dataclass"], nest=[True])
+            run_topology(t, col, depths, flavours=["plain"], future=True, nest=[True])
         col.exhaustive_done = True
     elif shard["kind"] == "aliases":
         for name, spec in alias_specs():
